@@ -60,28 +60,36 @@ Definition check_case (o : obs) : list N :=
   else if i_handled_dns o || o_handled_dns m1 then
     e 10 (Bool.eqb (i_handled_dns o) (o_handled_dns m1))
   else
-    (* impl = model *)
-    e 11 (i_start o =? o_start m1) ++ e 12 (optN_eqb (i_dl_at_start o) (o_dl_at_start m1))
-    ++ e 13 (match o_stack m1 with Some st => shape_eqb (i_shape o) (shape st) | None => false end)
-    ++ e 14 (list_eqb (i_up o) (o_up m1))
-    ++ e 15 (is_prefix (o_down m1) (i_down o) && is_prefix (i_down o) (o_down m2))
-    ++ e 16 (let '(n, t, l) := i_cw_up o in let '(n', t', l') := o_cw_up m1 in (n =? n') && (t =? t') && (l =? l'))
-    ++ e 40 (Bool.eqb (i_up_shut o) (o_up_shut m1) && Bool.eqb (i_down_shut o) (o_down_shut m1))
-    ++ e 17 (let '(n, t, _) := i_cw_down o in let '(n', t', _) := o_cw_down m1 in (n =? n') && (t =? t'))
-    ++ e 18 (Bool.eqb (i_err o) (o_err m1) && Bool.eqb (i_alive o) (o_alive m1) && (i_alive o || (i_end o =? o_end m1)))
-    ++ e 19 (Bool.eqb (i_spin o) (o_spin m1))
+    (* impl = model: when both directions are ready at the same instant the goroutine order is free; the
+       implementation must agree with one of the two orders (bytes down: lie between them) *)
+    (let agree (m : outcome) : list N :=
+       e 11 (i_start o =? o_start m) ++ e 12 (optN_eqb (i_dl_at_start o) (o_dl_at_start m))
+       ++ e 13 (match o_stack m with Some st => shape_eqb (i_shape o) (shape st) | None => false end)
+       ++ e 14 (list_eqb (i_up o) (o_up m))
+       ++ e 16 (let '(n, t, l) := i_cw_up o in let '(n', t', l') := o_cw_up m in (n =? n') && (t =? t') && (l =? l'))
+       ++ e 40 (Bool.eqb (i_up_shut o) (o_up_shut m) && Bool.eqb (i_down_shut o) (o_down_shut m))
+       ++ e 17 (let '(n, t, _) := i_cw_down o in let '(n', t', _) := o_cw_down m in (n =? n') && (t =? t'))
+       ++ e 18 (Bool.eqb (i_err o) (o_err m) && Bool.eqb (i_alive o) (o_alive m) && (i_alive o || (i_end o =? o_end m)))
+       ++ e 19 (Bool.eqb (i_spin o) (o_spin m)) in
+     match agree m1, agree m2 with
+     | [], _ => []
+     | _, [] => []
+     | l, _ => l
+     end)
+    ++ e 15 ((is_prefix (o_down m1) (i_down o) && is_prefix (i_down o) (o_down m2))
+             || (is_prefix (o_down m2) (i_down o) && is_prefix (i_down o) (o_down m1)))
     (* impl = spec *)
     ++ e 21 (list_eqb (i_up o) (x_up x)) ++ e 22 (list_eqb (i_down o) (x_down x))
     ++ e 23 (Bool.eqb (i_up_shut o) (x_up_shut x)) ++ e 24 (Bool.eqb (i_down_shut o) (x_down_shut x))
     ++ e 25 (Bool.eqb (i_alive o) (x_alive x))
     ++ e 26 (match i_dl_at_start o with None => true | Some _ => false end)
-    ++ e 27 (i_start o <=? allowed) ++ e 28 (negb (i_spin o))
+    ++ e 27 (i_start o <=? allowed)
     (* model = spec *)
     ++ e 31 (list_eqb (o_up m1) (x_up xm)) ++ e 32 (list_eqb (o_down m1) (x_down xm) && list_eqb (o_down m2) (x_down xm))
     ++ e 33 (Bool.eqb (o_up_shut m1) (x_up_shut xm)) ++ e 34 (Bool.eqb (o_down_shut m1) (x_down_shut xm))
     ++ e 35 (Bool.eqb (o_alive m1) (x_alive xm))
     ++ e 36 (match o_dl_at_start m1 with None => true | Some _ => false end)
-    ++ e 37 (o_start m1 <=? allowed) ++ e 38 (negb (o_spin m1)).
+    ++ e 37 (o_start m1 <=? allowed).
 
 (* coverage signature: stack kind at relay start, detection stages run, how the relay ended,
    which side's end of stream came first, stale deadline / sticky error present *)
